@@ -972,7 +972,12 @@ func runLockRT(ctx *Ctx) {
 		}
 	}
 	// cancellation exactly at the hand-off, on the real in-memory storage
-	rc := rtCancelHandoffScenario(40)
+	// (a round takes well under a millisecond; the window at the hand-off is hit once in a few dozen rounds)
+	nr := 400
+	if ctx.Thorough {
+		nr = 4000
+	}
+	rc := rtGuard(ctx, func(time.Duration) rtResult { return rtCancelHandoffScenario(nr) })(0)
 	ctx.R.Case("realtime")
 	ctx.R.Nontrivial("cancel-at-handoff")
 	ctx.R.Op("scenario cancel-at-handoff-1", "ok")
